@@ -7,7 +7,7 @@
 (* postfix chains, tuples, and truncated (garbled) strings.  A skeleton is *)
 (* a token sequence with typed slots; Next fills the first slot.           *)
 (***************************************************************************)
-EXTENDS C07_Model, Json
+EXTENDS C07_Model, C07_Lex, Json
 CONSTANT Tier
 VARIABLE toks
 
@@ -16,8 +16,11 @@ BinAll == {"+", "-", "*", "/", "//", "%", "**", "<<", ">>", "&", "|", "^",
 BinRed == {"+", "-", "*", "//", "%", "**", "<<", "&", "|", "^", "==", "<", "and", "or"}
 UnAll  == {"-", "+", "~", "not"}
 
-IsSlot(t) == t \in {"?B", "?b", "?U"}
-PoolFor(t) == CASE t = "?B" -> BinAll [] t = "?b" -> BinRed [] t = "?U" -> UnAll
+\* names that a sloppy lexer splits or rejects: keyword-prefixed, with digits and underscores
+TrickyNames == {"not_x", "not1", "or_1", "and2", "if_", "else_9", "note", "iffy", "orb", "Truex",
+                "Nonesuch", "_y", "x_1", "a_b"}
+IsSlot(t) == t \in {"?B", "?b", "?U", "?N"}
+PoolFor(t) == CASE t = "?B" -> BinAll [] t = "?b" -> BinRed [] t = "?U" -> UnAll [] t = "?N" -> TrickyNames
 
 Skeletons2 == {
   << "a", "?B", "b", "?B", "c" >>,
@@ -35,6 +38,11 @@ Skeletons2 == {
   << "(", "a", "if", "b", "else", "c", ",", "d", ")" >>, << "t", "[", "a", "if", "b", "else", "c", ",", "0", "]" >>,
   << "f", "(", "a", ",", "k1", "=", "b", "if", "c", "else", "d", ",", "k2", "=", "2", ")" >>,
   << "a", ",", "b", "if", "c", "else", "d" >>, << "a", "if", "b", "else", "c", "?B", "d", ",", "2" >>,
+  \* names: every tricky name as an operand, under a prefix operator, as function / argument /
+  \* keyword value / attribute name, in a conditional
+  << "?N" >>, << "?N", "?b", "b" >>, << "a", "?b", "?N" >>, << "?U", "?N" >>,
+  << "?N", "(", "a", ")" >>, << "f", "(", "?N", ",", "k1", "=", "?N", ")" >>, << "o", ".", "?N" >>,
+  << "a", "if", "?N", "else", "?N" >>, << "t", "[", "?N", "]" >>,
   \* postfix forms against prefix / infix operators
   << "?U", "f", "(", "a", ")" >>, << "?U", "t", "[", "1", "]" >>, << "?U", "o", ".", "p" >>,
   << "a", "?B", "f", "(", "b", ")" >>, << "f", "(", "a", ")", "?B", "b" >>,
@@ -86,7 +94,11 @@ ASSUME PrintT(ToJson([envs |-> Envs]))
 Emit == Complete =>
     /\ LET m == ModelVerdict(toks) IN
        (m.v \in {"OK", "SKIP"} \/ PrintT(ToJson([design |-> m.v, dtoks |-> toks])))
-    /\ PrintT(ToJson([toks |-> toks, garbled |-> FALSE]))
+    /\ PrintT(ToJson([toks |-> toks, garbled |-> FALSE, text |-> Text(toks, FALSE)]))
+    \* the same token string written without the blanks the lexical grammar does not need
+    /\ (Text(toks, TRUE) = Text(toks, FALSE)
+        \/ PrintT(ToJson([toks |-> toks, garbled |-> FALSE, text |-> Text(toks, TRUE)])))
     /\ (Len(toks) < 4 \/ Len(toks) > 6
-        \/ PrintT(ToJson([toks |-> SubSeq(toks, 1, Len(toks) - 1), garbled |-> TRUE])))
+        \/ PrintT(ToJson([toks |-> SubSeq(toks, 1, Len(toks) - 1), garbled |-> TRUE,
+                           text |-> Text(SubSeq(toks, 1, Len(toks) - 1), FALSE)])))
 =============================================================================
